@@ -63,6 +63,8 @@ class Gen:
         self.types = {t["name"]: t for t in S["types"]}
         self.out = []
         self.byte = byte
+        self.set_choices = {}     # (level, leaf path) -> [(choice name, index)] as the schema declares them
+        self.cur_lv = None
 
     def is_const_enc(self, e):
         if e["kind"] == "type":
@@ -98,6 +100,8 @@ class Gen:
             ln = 1 if ln is None else ln
             yield (path, chain[:-1], chain[-1], "array" if ln != 1 else "scalar")
         elif k in ("enum", "set"):
+            if k == "set":
+                self.set_choices[id(self.cur_lv), tuple(path)] = [(c["name"], int(c["index"])) for c in e["choices"]]
             yield (path, chain[:-1], chain[-1], k)
         elif k == "composite":
             for m in e["elements"]:
@@ -106,6 +110,7 @@ class Gen:
                 yield from self.leaves(m, chain + [m["name"]], path + [m["name"]])
 
     def level_leaves(self, lv):
+        self.cur_lv = lv
         for f in lv.get("fields", []):
             if self.is_const_field(f):
                 continue
@@ -126,6 +131,11 @@ class Gen:
             parent = "".join(".%s()" % c for c in chain)
             L.append('VH_REG_LEAF("%s:%s", %s, %s, %s, %s, VH_KIND_%s);' % (
                 key, "/".join(lp), M, fn, "VH_P(%s)" % parent if parent else "VH_P()", acc, kind))
+            if kind == "set":
+                # every declared choice read through its named getter (the index is the schema's)
+                L.append('VH_REG_SETBITS("%s:%s", %s, %s, %s, %s, %s);' % (
+                    key, "/".join(lp), M, fn, "VH_P(%s)" % parent if parent else "VH_P()", acc,
+                    " ".join("VH_CH(%s, %d)" % c for c in self.set_choices[id(lv), tuple(lp)])))
         for f in lv.get("fields", []):
             L.append('VH_REG_FIELD("%s:%s", %s, %s, %s, %s);' % (key, f["name"], M, fn, f["name"],
                                                              "true" if self.is_const_field(f) else "false"))
